@@ -72,7 +72,8 @@ func (m *ImportMap) Find(shortName string) *Import {
 	// Priority 1: Search by explicit alias first
 	for i := range *m {
 		imp := &(*m)[i]
-		if imp.Alias != "" && imp.Alias == shortName {
+		// ("_" and "." are not names: a blank or dot import binds no qualifier)
+		if imp.Alias != "" && imp.Alias != "_" && imp.Alias != "." && imp.Alias == shortName {
 			return imp
 		}
 	}
